@@ -30,6 +30,7 @@ import (
 
 	"github.com/henrylee2cn/erpc/v6"
 	"github.com/henrylee2cn/erpc/v6/codec"
+	"github.com/henrylee2cn/erpc/v6/socket"
 	"github.com/henrylee2cn/erpc/v6/utils"
 	"github.com/henrylee2cn/erpc/v6/xfer"
 	"github.com/henrylee2cn/erpc/v6/xfer/gzip"
@@ -345,6 +346,9 @@ func (h *httproto) unpack(m erpc.Message, bb *utils.ByteBuffer) (size int, msg [
 			msg = append(msg, '\r', '\n')
 		}
 		size += bb.Len()
+		if err = checkSize(size); err != nil {
+			return 0, nil, err
+		}
 		// blank line, to read body
 		if bb.Len() == 0 {
 			break
@@ -364,7 +368,16 @@ func (h *httproto) unpack(m erpc.Message, bb *utils.ByteBuffer) (size int, msg [
 			if err != nil {
 				return 0, nil, errBadHTTPMsg
 			}
-			size += bodySize
+			if bodySize > 0 {
+				// refuse an announced body beyond the read limit before buffering it
+				if err = checkSize(bodySize); err != nil {
+					return 0, nil, err
+				}
+				size += bodySize
+				if err = checkSize(size); err != nil {
+					return 0, nil, err
+				}
+			}
 			continue
 		}
 		if bytes.Equal(xContentEncodingBytes, a[0]) {
@@ -411,6 +424,14 @@ func (h *httproto) unpack(m erpc.Message, bb *utils.ByteBuffer) (size int, msg [
 	return size, msg, err
 }
 
+// checkSize reports an error if a message of n bytes exceeds the read limit.
+func checkSize(n int) error {
+	if n < 0 || uint64(n) > uint64(erpc.GetReadLimit()) {
+		return socket.ErrExceedMessageSizeLimit
+	}
+	return nil
+}
+
 func (h *httproto) readLine(bb *utils.ByteBuffer) error {
 	bb.Reset()
 	oneByte := make([]byte, 1)
@@ -418,6 +439,10 @@ func (h *httproto) readLine(bb *utils.ByteBuffer) error {
 	for {
 		_, err = io.ReadFull(h.rw, oneByte)
 		if err != nil {
+			return err
+		}
+		// a single line is never allowed to outgrow the read limit
+		if err = checkSize(bb.Len() + 1); err != nil {
 			return err
 		}
 		if oneByte[0] == '\n' {
